@@ -91,6 +91,12 @@ def check_case(ctx, case, stratum):
     o1 = observe(h)
     s1 = h.to_json()
     d1 = json.loads(s1)
+    # serializing is a pure query: a second serialization gives the same document and the HUGR is as before
+    ctx.count("monitor:serialization-is-pure")
+    if h.to_json() != s1:
+        ctx.disc(None, "second-to_json-differs", "to_json() twice", "same text", "differs", stratum=stratum, case=case)
+    for m in mechanisms(diff(o1, observe(h))):
+        ctx.disc(None, f"hugr-modified-by-to_json[{m}]", m, "unchanged", "changed", stratum=stratum, case=case)
     try:
         h2 = Hugr.load_json(s1)
     except Exception as e:  # noqa: BLE001
